@@ -230,11 +230,19 @@ func (x *Ctx) StopClients() {
 
 // ---------------------------------------------------------------- quiesce + finish
 
-// Quiesce removes all faults, restarts everything that is down, and waits (bounded) for one leader
-// and for all live members to reach the same applied index. Returns false if that did not happen.
+// Quiesce removes all faults, restarts everything that is down, and checks bounded progress (C15), counted in
+// protocol steps seen by the network, not in seconds:
+//  (a) within 40 candidacy rounds per voter there is a leader that then completes 20 heartbeat rounds unchallenged;
+//  (b) every live member reaches the applied index that leader had, within 300 completed exchanges on its link;
+// a wall-clock watchdog firing first makes the result inconclusive (returns false without a violation).
 func (x *Ctx) Quiesce(bound time.Duration) bool {
 	x.M.Emit(mon.Event{Kind: mon.KPhase, Str: "heal"})
 	x.C.Net.Heal()
+	// no further faults: disarm every planned crash that has not fired yet
+	for _, id := range x.C.IDs() {
+		x.C.Node(id).PlanCrash(nil)
+	}
+	time.Sleep(2 * time.Millisecond)
 	for _, id := range x.C.IDs() {
 		n := x.C.Node(id)
 		if !n.IsUp() {
@@ -246,39 +254,133 @@ func (x *Ctx) Quiesce(bound time.Duration) bool {
 		}
 	}
 	x.StopClients()
+	if bound < 45*time.Second {
+		bound = 45 * time.Second
+	}
 	dl := time.Now().Add(bound)
-	ok := false
+	rv0, _, _ := x.M.Steps()
+	nUp := len(x.C.UpIDs())
+	leader, stable := "", false
+	var starts0 int
+	var exch0 map[[2]string]int
+	var target uint64
+	fail := func(sig, node, format string, args ...interface{}) bool {
+		props := []string{"C15"}
+		if nd := x.C.Node(node); nd != nil && nd.Crashes > 0 {
+			props = append(props, "C14")
+		}
+		x.M.AddViolation(mon.Violation{Props: props, Sig: sig, Node: node, Msg: fmt.Sprintf(format, args...)})
+		x.M.Emit(mon.Event{Kind: mon.KPhase, Str: "quiesce-failed"})
+		return false
+	}
+	members := func(l string) []string {
+		s := x.C.Node(l).Sample()
+		var out []string
+		if s == nil || s.Cfg == nil {
+			return out
+		}
+		for id := range s.Cfg.Members {
+			if nd := x.C.Node(id); nd != nil && nd.IsUp() && id != l {
+				out = append(out, id)
+			}
+		}
+		sort.Strings(out)
+		return out
+	}
 	for time.Now().Before(dl) {
+		rv, starts, exch := x.M.Steps()
 		l := x.C.Leader()
 		if l == "" {
-			time.Sleep(5 * time.Millisecond)
+			leader, stable = "", false
+			if rv-rv0 > 40*nUp {
+				return fail("no-leader-within-bound", "", "no leader after %d candidacy rounds following the heal (%d nodes up)", rv-rv0, nUp)
+			}
+			time.Sleep(2 * time.Millisecond)
 			continue
 		}
+		if l != leader || starts != starts0 {
+			if leader == "" || l != leader {
+				starts0 = starts
+			}
+			if l != leader {
+				leader, stable = l, false
+				exch0 = exch
+				starts0 = starts
+			} else if starts != starts0 {
+				stable = false
+				exch0 = exch
+				starts0 = starts
+			}
+		}
+		ms := members(l)
+		if !stable {
+			// 20 heartbeat rounds: every member link completed 20 exchanges since this leader was first seen
+			minEx := 1 << 30
+			for _, m := range ms {
+				if d := exch[[2]string{l, m}] - exch0[[2]string{l, m}]; d < minEx {
+					minEx = d
+				}
+			}
+			if len(ms) == 0 {
+				minEx = 20
+			}
+			if minEx >= 20 {
+				stable = true
+				exch0 = exch
+				if s := x.C.Node(l).Sample(); s != nil {
+					target = s.Applied
+				}
+			} else {
+				if rv-rv0 > 80*nUp {
+					return fail("no-stable-leader-within-bound", l, "leader %s did not complete 20 unchallenged heartbeat rounds within %d candidacy rounds after the heal", l, rv-rv0)
+				}
+				time.Sleep(2 * time.Millisecond)
+				continue
+			}
+		}
+		// (b) catch-up
 		ls := x.C.Node(l).Sample()
 		if ls == nil {
 			continue
 		}
 		all := true
-		for _, id := range x.C.UpIDs() {
-			s := x.C.Node(id).Sample()
-			if s == nil || s.Applied != ls.Applied || s.Commit != ls.Commit {
-				all = false
-				break
+		for _, m := range ms {
+			s := x.C.Node(m).Sample()
+			if s != nil && s.Applied >= target && s.Applied == ls.Applied && s.Commit == ls.Commit {
+				continue
+			}
+			all = false
+			if d := exch[[2]string{l, m}] - exch0[[2]string{l, m}]; d > 300 && (s == nil || s.Applied < target) {
+				ap := uint64(0)
+				if s != nil {
+					ap = s.Applied
+				}
+				tailMsgs := x.M.LinkTail(l, m, 12)
+				return fail("member-stuck", m, "member %s did not reach applied index %d (it is at %d) within %d completed exchanges with stable leader %s; last exchanges (newest first): %s", m, target, ap, d, l, strings.Join(tailMsgs, " | "))
 			}
 		}
 		if all && ls.Applied == ls.Commit && ls.Commit > 0 {
-			ok = true
-			break
+			x.M.Emit(mon.Event{Kind: mon.KPhase, Str: "quiesced"})
+			x.count("c15.quiesce_ok", 1)
+			return true
 		}
-		time.Sleep(5 * time.Millisecond)
+		// a leader that keeps heartbeating but never commits what it has
+		if len(ms) == 0 {
+			time.Sleep(2 * time.Millisecond)
+			continue
+		}
+		time.Sleep(2 * time.Millisecond)
 	}
-	x.M.Emit(mon.Event{Kind: mon.KPhase, Str: "quiesced"})
-	return ok
+	x.M.Emit(mon.Event{Kind: mon.KPhase, Str: "quiesce-watchdog"})
+	x.Inconclusive("bounded-progress watchdog (%v) fired before a step bound was reached", bound)
+	return false
 }
 
-// FinalWrite submits one more write to the leader; it must be acknowledged.
+// FinalWrite submits one more write to the stable leader (C15 c): it must be acknowledged within 100 heartbeat
+// rounds of that leader (counted as completed exchanges on its busiest link).
 func (x *Ctx) FinalWrite(bound time.Duration) bool {
-	dl := time.Now().Add(bound)
+	dl := time.Now().Add(bound + 20*time.Second)
+	_, _, exch0 := x.M.Steps()
 	i := 0
 	for time.Now().Before(dl) {
 		l := x.C.Leader()
@@ -289,9 +391,28 @@ func (x *Ctx) FinalWrite(bound time.Duration) bool {
 		i++
 		op := x.C.Submit(99, fmt.Sprintf("wfinal.%d", i), "W", l, 2*time.Second, 0)
 		if op != nil && op.Outcome == "ok" {
+			x.count("c15.final_write_ok", 1)
 			return true
 		}
+		_, _, exch := x.M.Steps()
+		maxd := 0
+		for k, v := range exch {
+			if k[0] == l {
+				if d := v - exch0[k]; d > maxd {
+					maxd = d
+				}
+			}
+		}
+		if maxd > 100 {
+			out := "none"
+			if op != nil {
+				out = op.Outcome
+			}
+			x.M.AddViolation(mon.Violation{Props: []string{"C15"}, Sig: "write-stuck", Node: l, Msg: fmt.Sprintf("a write submitted to stable leader %s after the heal was not acknowledged within %d heartbeat exchanges (last outcome %s)", l, maxd, out)})
+			return false
+		}
 	}
+	x.Inconclusive("final-write watchdog fired before the step bound")
 	return false
 }
 
